@@ -47,7 +47,8 @@ def Registry.new : Registry :=
 
 /-- `register_template` -/
 def Registry.registerTemplate (r : Registry) (name : Str) (t : Tmpl) : Registry :=
-  { r with templates := assocInsert r.templates name t }
+  -- the name no longer stands for a previously tracked source
+  { r with templates := assocInsert r.templates name t, sources := assocRemove r.sources name }
 
 /-- `register_template_string` (also `register_partial`) -/
 def Registry.registerTemplateString (r : Registry) (name src : Str) : CRes Registry :=
